@@ -1,6 +1,19 @@
 #![doc = include_str!("../README.md")]
 #![warn(missing_docs, missing_debug_implementations)]
 
+// Verification hooks (model checking with loom, see /verif): compiled only
+// under `--cfg kanal_verif`; without the cfg every hook line vanishes.
+#[cfg(kanal_verif)]
+#[doc(hidden)]
+pub mod verif {
+    pub use ::kanal_verif_rt::*;
+    #[cfg(not(feature = "std-mutex"))]
+    pub use crate::mutex::{Mutex as SpinMutex, RawMutexLock};
+}
+#[cfg(kanal_verif)]
+#[allow(unused_imports)]
+use crate::verif::{core, std};
+
 pub(crate) mod backoff;
 pub(crate) mod internal;
 #[cfg(not(feature = "std-mutex"))]
